@@ -3,6 +3,8 @@
 Phase 1: BFS state graph over an alphabet chosen to reach every kind of state the statement
 names. Phase 2: in every distinct state, every line of a probe corpus, then a liveness probe.
 """
+import collections
+
 from .. import alpha, e1check, explore
 from ..common import Violation, short
 from ..monitors import GatewayMonitor
@@ -243,21 +245,158 @@ ASSUMPTIONS = [
 
 
 def run(tier):
+    from ..common import HarnessError, Report
+
     spec = C01Spec(tier)
-
-    def extra(cov, wit):
-        probes = wit.get("probes", 0)
-        return {
-            "evaluations": probes + cov["transitions"],
-            "distinct_nontrivial": probes,
-            "probe_corpus_sizes": {f"{k[0]}/{k[1]}": len(v) for k, v in spec._corpus.items()} or {v: len(corpus(v, tier)) for v in ("1.4", "2.2")},
-            "sample_probes": [short(line, 60) for _, line in corpus("2.2", tier)[::97]][:12],
-        }
-
+    report = Report(PROP, "model_checking", tier)
     if tier == "quick":
-        return e1check.run_e1(spec, tier, depth=2, state_budget=100000, time_budget=200, rule=RULE, assumptions=ASSUMPTIONS, extra_cov=extra)
-    return e1check.run_e1(spec, tier, depth=4, state_budget=400000, time_budget=3000, rule=RULE, assumptions=ASSUMPTIONS, extra_cov=extra)
+        explore.run(spec, report, tier, 2, 100000, 200)
+    else:
+        explore.run(spec, report, tier, 4, 400000, 3000)
+    for viol in list(report.violations.values()):
+        if viol.replay and viol.replay.get("kind") == "history" and not explore.confirm(spec, viol):
+            raise HarnessError(f"violation {viol.signature} did not reproduce from its replay data")
+    part_b = run_part_b(report, tier)
+    cov = report.coverage
+    wit = cov.get("witnesses", {})
+    probes = wit.get("probes", 0)
+    cov["rule"] = RULE
+    cov["evaluations"] = probes + cov["transitions"] + part_b["schedules"]
+    cov["distinct_nontrivial"] = probes
+    cov["probe_corpus_sizes"] = {f"{k[0]}/{k[1]}": len(v) for k, v in spec._corpus.items()} or {v: len(corpus(v, tier)) for v in ("1.4", "2.2")}
+    cov["sample_probes"] = [short(line, 60) for _, line in corpus("2.2", tier)[::97]][:12]
+    cov["controller_thread_vs_pump"] = part_b
+    report.assumptions = list(ASSUMPTIONS)
+    return report.finish()
 
 
 def replay(data):
+    rep = data["replay"]
+    if rep.get("kind") == "schedule":
+        sched = _b_run_one(rep["scenario"], list(rep["choices"]))
+        bad = [e for e in sched.log if e[0] in ("pump-raised",)]
+        print(f"schedule replayed ({len(sched.points)} points); pump exceptions: {bad}")
+        if bad:
+            print(f"VIOLATION property={PROP} replay=<replayed>")
+            return 1
+        print("did not reproduce on the current tree")
+        return 0
     return e1check.replay_history(C01Spec("thorough"), data)
+
+
+# -- part (b): controller calls from another thread while the pump processes messages (E2) -----------
+
+B_TRACE = ("mysensors/handler.py", "mysensors/sensor.py", "mysensors/__init__.py")
+B_SCENARIOS = {
+    # name: (lines queued for the pump, controller calls)
+    "wakeup-vs-new-desired-type": (["1;255;3;0;32;500"], [(1, 0, 3, "60")]),
+    "wakeup-vs-two-sets": (["1;255;3;0;32;500"], [(1, 0, 3, "60"), (1, 1, 0, "20.5")]),
+    "report-vs-set": (["1;0;1;0;3;70", "1;0;2;0;3;"], [(1, 0, 3, "60")]),
+    "presentation-vs-set": (["1;2;0;0;3;new child", "1;255;3;0;32;500"], [(1, 0, 2, "0")]),
+}
+
+
+def _b_run_one(name, prefix):
+    from .. import sched as S
+    from .c16 import Conn
+
+    from mysensors.gateway_serial import SerialGateway
+
+    S.install_library_shims()
+    lines, calls = B_SCENARIOS[name]
+    gw = SerialGateway("/dev/verif", protocol_version="2.2")
+    for line in ("1;255;0;0;17;2.2", "1;0;0;0;4;dimmer", "1;1;0;0;6;temp", "1;0;1;0;2;1", "1;0;1;0;3;50", "1;1;1;0;0;19", "1;255;3;0;32;500"):
+        gw.logic(line)
+    gw.tasks.queue.clear()
+    gw.set_child_value(1, 0, 2, "0")
+    sched = S.Scheduler(prefix, trace_files=B_TRACE, horizon=5000)
+    log = sched.log
+    gw.tasks.transport.protocol.connection_made(Conn(log, "c0"))
+    S.PUMP_TASKS[0] = gw.tasks
+    proto = gw.tasks.transport.protocol
+
+    def body():
+        def pump():
+            try:
+                gw.tasks._poll_queue()
+            except Exception as exc:  # pylint: disable=broad-except
+                log.append(("pump-raised", type(exc).__name__, str(exc)[:120], S._site(exc)))
+
+        def controller():
+            for call in calls:
+                try:
+                    gw.set_child_value(*call)
+                except Exception as exc:  # pylint: disable=broad-except
+                    log.append(("call-raised", type(exc).__name__, str(exc)[:120], S._site(exc)))
+
+        for line in lines:
+            proto.handle_line(line)
+        t0 = sched.spawn(pump, "pump")
+        t1 = sched.spawn(controller, "controller")
+        sched.block(lambda: not t1.alive and (not gw.tasks.queue or not t0.alive), ("join",))
+        gw.tasks._stop_event.set()
+        sched.block(lambda: not t0.alive, ("join-pump",))
+
+    sched.run(body)
+    return sched
+
+
+def _b_part(args):
+    from .. import sched as S
+
+    name, bound, roots, deadline, limit = args
+    res = S.Result()
+    found = {}
+    outcomes = collections.Counter()
+
+    def check(sched):
+        outcomes[tuple(e[0] if e[0] != "write" else e[2] for e in sched.log if e[0] in ("write", "pump-raised", "call-raised"))] += 1
+        for e in sched.log:
+            if e[0] == "pump-raised":
+                npre = S.preemptions(sched.points, len(sched.points))
+                sig = f"controller-thread-vs-pump|{name}|pump-raised|{e[1]}@{e[3]}"
+                if sig not in found or npre < found[sig][2]:
+                    found[sig] = (f"{e[1]}: {e[2]} escaped into the poll thread at {e[3]} while another thread called set_child_value", list(sched.choices), npre)
+            if e[0] == "call-raised" and e[1] not in ("ValueError", "MultipleInvalid", "Invalid"):
+                found.setdefault(f"controller-thread-vs-pump|{name}|call-raised|{e[1]}@{e[3]}", (f"set_child_value raised {e[1]}: {e[2]}", list(sched.choices), 0))
+        if sched.problem in ("deadlock", "horizon"):
+            found.setdefault(f"controller-thread-vs-pump|{name}|{sched.problem}", (f"execution ended in {sched.problem}", list(sched.choices), 0))
+
+    complete, leftover = S.explore(lambda p: _b_run_one(name, p), check, bound, res, deadline=deadline, roots=roots, expand_limit=limit)
+    return name, complete, leftover, res.executions, res.points, found, len(outcomes)
+
+
+def run_part_b(report, tier):
+    import multiprocessing
+    import time
+
+    from ..common import NPROC
+
+    bound = 1 if tier == "quick" else 2
+    deadline = time.time() + (60 if tier == "quick" else 1200)
+    ctx = multiprocessing.get_context("fork")
+    total = collections.Counter()
+    per = {}
+    with ctx.Pool(NPROC) as pool:
+        parts = []
+        for name, complete, leftover, execs, points, found, nout in pool.imap(_b_part, [(n, bound, None, deadline, 20) for n in B_SCENARIOS]):
+            per[name] = {"schedules": execs, "complete": complete, "distinct_outcomes": nout}
+            total["executions"] += execs
+            total["points"] += points
+            _b_add(report, name, found)
+            chunks = [leftover[i::6] for i in range(6)]
+            parts += [(name, bound, ch, deadline, None) for ch in chunks if ch]
+        for name, complete, leftover, execs, points, found, nout in pool.imap_unordered(_b_part, parts):
+            per[name]["schedules"] += execs
+            per[name]["complete"] = per[name]["complete"] and complete
+            per[name]["distinct_outcomes"] = max(per[name]["distinct_outcomes"], nout)
+            total["executions"] += execs
+            total["points"] += points
+            _b_add(report, name, found)
+    return {"preemption_bound": bound, "schedules": total["executions"], "scheduling_decisions": total["points"], "scenarios": per,
+            "rule": "pump thread (real _poll_queue with queued lines: wake-up, value report + request, child presentation) against a controller thread calling set_child_value on the sleeping node; every schedule up to the preemption bound at line granularity of handler.py, sensor.py and __init__.py; oracle: nothing escapes into the poll thread"}
+
+
+def _b_add(report, name, found):
+    for sig, (msg, choices, npre) in found.items():
+        report.add(Violation(PROP, sig, f"{msg} (schedule with {npre} preemption(s))", {"kind": "schedule", "check": PROP, "scenario": name, "choices": choices}))
